@@ -10,7 +10,8 @@ from . import envctl
 from .envctl import MachineryError
 
 THR = {'t0': 0, 't1': 1, 'tsmall': 100, 't32k': 2 ** 15}
-ACCESSORS = ['get', 'getitem', 'pop', 'read', 'pull', 'peek', 'peekitem', 'deque-getitem', 'deque-pop', 'index-getitem', 'index-pop']
+ACCESSORS = ['get', 'getitem', 'pop', 'read', 'pull', 'peek', 'peekitem', 'deque-getitem', 'deque-pop', 'index-getitem', 'index-pop',
+             'get-unpickled', 'pull-unpickled']
 FEATCH = {'CR': '\r', 'LF': '\n', 'CRLF': '\r\n', 'NUL': '\x00', 'U85': '\x85', 'U2028': ' ', 'astral': '\U0001f600',
           'surrogate': '\ud800'}
 
@@ -142,7 +143,7 @@ def run_config(thr, disk, protocol, cases, seed=0, tid=1):
             try:
                 cache.clear(); dq.clear(); ix.clear()
                 files0 = sum(len(f) for _, _, f in os.walk(root))
-                if acc in ('get', 'getitem', 'pop', 'read', 'peekitem'):
+                if acc in ('get', 'getitem', 'pop', 'read', 'peekitem', 'get-unpickled'):
                     if stream:
                         cache.set('k', io.BytesIO(value) if rng.random() < 0.5 else Drip(value, rng.choice([1, 1000, 4096])), read=True)
                     else:
@@ -150,6 +151,13 @@ def run_config(thr, disk, protocol, cases, seed=0, tid=1):
                     phase = 'fetch'
                     if acc == 'get':
                         got = cache.get('k', default='<missing>')
+                    elif acc == 'get-unpickled':
+                        import pickle as _p
+                        other = _p.loads(_p.dumps(cache))
+                        try:
+                            got = other.get('k', default='<missing>')
+                        finally:
+                            other.close()
                     elif acc == 'getitem':
                         got = cache['k']
                     elif acc == 'pop':
@@ -162,13 +170,21 @@ def run_config(thr, disk, protocol, cases, seed=0, tid=1):
                             got = h.read(); h.close()
                         else:
                             got = h
-                elif acc in ('pull', 'peek'):
+                elif acc in ('pull', 'peek', 'pull-unpickled'):
                     if stream:
                         cache.push(io.BytesIO(value) if rng.random() < 0.5 else Drip(value, rng.choice([1, 1000, 4096])), read=True)
                     else:
                         cache.push(value)
                     phase = 'fetch'
-                    got = (cache.pull() if acc == 'pull' else cache.peek())[1]
+                    if acc == 'pull-unpickled':
+                        import pickle as _p
+                        other = _p.loads(_p.dumps(cache))
+                        try:
+                            got = other.pull()[1]
+                        finally:
+                            other.close()
+                    else:
+                        got = (cache.pull() if acc == 'pull' else cache.peek())[1]
                 elif acc.startswith('deque'):
                     if stream:
                         continue
